@@ -631,17 +631,19 @@ def get_attr(self, st, base, attr, node, default=KeyError):
                     return [(st, "val", Top("classconst:" + attr))]
             if hook is not None:
                 return hook(self, st, [base, attr, default], {}, node)
+        if (o.clsname() or "") + "." + attr in self.stubs:
+            return [(st, "val", BoundMeth(base, None, attr))]
         if o.open:
             dom = o.field_domains.get(attr)
             tag = ("bool:" if dom == "bool" else "") + "%s.%s" % (o.label or o.clsname() or "obj", attr)
             v = Top(tag, True, None if dom in (None, "bool") else dom, ("field", base.oid, attr))
             o.fields[attr] = v
             return [(st, "val", v)]
-        if default is not KeyError:
-            return [(st, "val", default)]
         # a stubbed method name on a class-less object?
         if (o.clsname() or "") + "." + attr in self.stubs:
             return [(st, "val", BoundMeth(base, None, attr))]
+        if default is not KeyError:
+            return [(st, "val", default)]
         return self.raise_exc(st, "AttributeError", node, "missing-attr",
                               "%s object has no attribute %s" % (o.clsname(), attr))
     if base is None:
